@@ -61,6 +61,8 @@ func init() {
 			Run: func(P *Program, R *Report) { historyValuesImmutableRule(P, R) }},
 		Rule{ID: "C09.h", Explain: "a non-revoked witness stays valid: Witness.Update / Witness.Verify and everything below them return an error only for the specified reasons (bad signature or chain, window gap, common factor = revoked, failed final relation).",
 			Run: func(P *Program, R *Report) { treeRejectionsRule(P, R, "C09.h", "witness", "the witness update call tree") }},
+		Rule{ID: "C09.i", Explain: "the product an event list computes while being decoded is the product of all decoded events, accumulated into a fresh integer (same rule as C10.k): a short or aliased product breaks the witness update that later uses it / the round trip of the first event.",
+			Run: func(P *Program, R *Report) { decodedProductRule(P, R, "C09.i") }},
 		Rule{ID: "C09.f", Explain: "Accumulator.Remove / newWitness: new Nu = Nu^(e^-1 mod Order) mod N, index+1, the event carries e, the new index and the parent's hash; a fresh witness is u = Nu^(e^-1) (symbolic terms; inverses checked).",
 			Run: func(P *Program, R *Report) { accumulatorRemoveRule(P, R) }},
 	)
